@@ -11,7 +11,7 @@ PROP = "C03"
 PROFILE = dict(p_generic_param=0.45, p_lifetimes=0.4, p_const=0.2, p_unsafe=0.15, p_extern=0.12, p_async=0.3,
                p_lt_relation=0.5,
                rets=["owned", "owned", "unit", "borrow_deps", "borrow_deps", "borrow_arg", "borrow_arg", "generic"],
-               deps_kinds=["generic_ref"] * 4 + ["impl_ref"] * 3 + ["generic_val", "impl_val", "concrete_ref", "concrete_ref", "no_deps"])
+               deps_kinds=["generic_ref"] * 4 + ["impl_ref"] * 3 + ["generic_val", "impl_val", "concrete_ref", "concrete_ref", "concrete_val", "no_deps"])
 
 
 def nontrivial(m):
